@@ -27,7 +27,7 @@ def mean_squared_error(vector, individual=None):  # pylint: disable=unused-argum
 
 def negative_nmll_laplace(vector, individual):
     """Calculate the nmll squared error of an error vector"""
-    n = len(vector)
+    n = np.size(vector)
     k = individual.get_number_local_optimization_params() + 1
     b = 1 / np.sqrt(n)
     mse = np.mean(np.square(vector))
